@@ -61,8 +61,11 @@ def run(ctx):
     res.coverage["behaviours_generated"] = gen_total
     res.coverage["behaviours_replayed"] = len(traces)
     n_rand = ctx.pick(250, 6000)
+    # a second manager whose first block command is an ancestor update (the model scripts above began with
+    # advances): whatever a manager sets up on first use of one command must not leak into the other
+    bench = blockx.Bench()
     for i in range(n_rand):
-        advance = ctx.rng.random() < 0.65
+        advance = ctx.rng.random() < 0.65 and i > 0
         n = ctx.rng.randint(1, 4)
         bro = [ctx.rng.choice([0, 0, 1, 2, 3, 10 if ctx.rng.random() < 0.1 else 1]) for _ in range(n)] if advance else None
         blocks = reqs.blocks(ctx.rng, n, advance, bro_counts=bro)
